@@ -17,7 +17,7 @@ template <class E> struct VecRun {
     explicit VecRun(Run& r) : R(r), a(0), b(0) {
         R.apiClass = "XalanVector";
         a = new V(R.mm, (size_t)(R.plan.at("knobs").num("cap", 0) & 15));
-        b = new V(R.mm);
+        b = new V(R.mmB());
         R.snapshot = [this] { Json o = Json::object(); o["op"] = "force_state"; o["a"] = jsonInts(ma); o["b"] = jsonInts(mb); return o; };
     }
     static std::vector<int> read(const V& v) {
@@ -280,7 +280,7 @@ template <class E> struct DequeRun {
         const Json& kn = R.plan.at("knobs");
         bsA = (size_t)(kn.num("bsA", 3) & 7); if (!bsA) bsA = 1; bsB = (size_t)(kn.num("bsB", 3) & 7); if (!bsB) bsB = 1;
         const size_t init = (size_t)(kn.num("init", 0) & 7);
-        a = new D(R.mm, init, bsA); b = new D(R.mm, 0, bsB);
+        a = new D(R.mm, init, bsA); b = new D(R.mmB(), 0, bsB);
         ma.assign(init, 0);
         R.snapshot = [this] { Json o = Json::object(); o["op"] = "force_state"; o["a"] = jsonInts(ma); o["b"] = jsonInts(mb); return o; };
     }
